@@ -25,6 +25,8 @@ def _run_job(arg):
     try:
         m = importlib.import_module(f'harnesses.{pid}')
         from .harness import program
+        from . import bridge
+        bridge.REJECT_IS_VIOLATION = (tier == 'quick')
         prog = program(dump_path)
         res = m.run_job(prog, jobname, tier, seed)
         d = res.to_dict()
